@@ -72,12 +72,21 @@ where
     }
 }
 
+/// Argument of a global option that LiPE does not support: the number is read, then refused, so
+/// that the option is reported as an error instead of reaching [RunOptions::update].
+fn unsupported_option_argument(input: &mut &'_ str) -> PResult<u32> {
+    u32::parse
+        .verify_map(|_: u32| None::<u32>)
+        .context(expected("unsupported_option"))
+        .parse_next(input)
+}
+
 impl Parseable for GlobalOption {
     fn parse(input: &mut &'_ str) -> PResult<GlobalOption> {
         alt((
             literal("-depth").value(GlobalOption::Depth),
-            unary!("-maxdepth", GlobalOption::MaxDepth, u32::parse),
-            unary!("-mindepth", GlobalOption::MinDepth, u32::parse),
+            unary!("-maxdepth", GlobalOption::MaxDepth, unsupported_option_argument),
+            unary!("-mindepth", GlobalOption::MinDepth, unsupported_option_argument),
             unary!("-threads", GlobalOption::Threads, u32::parse),
         ))
         .context(label("global_option"))
